@@ -577,12 +577,21 @@ class SeqExec(HeapExec):
         p.extra["gens"] = gens
 
 
+def _elem_of_sort(t):
+    from z3 import StringSort
+    if t.sort() == SeqSeqR:
+        return "qseq"
+    if t.sort() == SeqSort(StringSort()):
+        return "str"
+    return "ref"
+
+
 def _seq_apply(self, spec, p, args, label):
     for q, res in HeapExec.apply_spec(self, spec, p, args, label):
         if res is not None and res.k == "gen" and not isinstance(res.t, int):
-            res = self.new_gen(q, res.t, "qseq" if res.t.sort() == SeqSeqR else "ref")
+            res = self.new_gen(q, res.t, _elem_of_sort(res.t))
         elif res is not None and res.k == "qseq" and res.x is None:
-            res = qseq(res.t, "qseq" if res.t.sort() == SeqSeqR else "ref")
+            res = qseq(res.t, _elem_of_sort(res.t))
         yield q, res
 
 
